@@ -15,7 +15,7 @@ for q, f in sorted(ana.prog.functions.items()):
             cs.append(t)
             if c.callee.func is not None:
                 callers.setdefault(t, set()).add(q)
-    shapes[q] = {"params": f.params, "callees": sorted(set(cs)), "cls": f.cls.qualname if f.cls else None, "kind": f.kind}
+    shapes[q] = {"params": f.params, "annotations": [__import__("ast").unparse(f.param_annotation(p)) if f.param_annotation(p) is not None else "" for p in f.params], "callees": sorted(set(cs)), "cls": f.cls.qualname if f.cls else None, "kind": f.kind}
 for q in shapes:
     shapes[q]["callers"] = sorted(callers.get(q, ()))
 json.dump(shapes, open("/verif/sa/known_shapes.json", "w"), indent=0, sort_keys=True)
